@@ -47,6 +47,9 @@ type spec struct {
 	Closes []int `json:"closes_after,omitempty"`
 	// also run the `vegeta report` command on a results file holding the data set
 	CLI bool `json:"cli,omitempty"`
+	// a few records in the middle of the results file carry large bodies (40..200 KiB): their JSON lines
+	// exceed 64 KiB, their gob/CSV records are large too
+	BigBodies bool `json:"big_bodies,omitempty"`
 	// the slowest tenth of the requests failed (code 0 + error text, as timeouts do); otherwise all 200
 	ErrTail bool `json:"errors_on_slowest,omitempty"`
 }
@@ -54,6 +57,10 @@ type spec struct {
 // resultFor builds the Result carrying latency l (the i-th of the data set).
 func (sp spec) resultFor(i int, l int64, cut int64) *vegeta.Result {
 	r := &vegeta.Result{Attack: "a", Seq: uint64(i), Code: 200, Timestamp: time.Unix(1700000000, 0).Add(time.Duration(i) * time.Millisecond), Latency: time.Duration(l)}
+	if sp.BigBodies && sp.N >= 4 && (i == sp.N/4 || i == sp.N/2 || i == sp.N/2+1) {
+		size := 40*1024 + int((uint64(sp.Seed)>>3+uint64(i)*7919)%(160*1024))
+		r.Body = bytes.Repeat([]byte{byte('a' + i%26)}, size)
+	}
 	if sp.ErrTail {
 		switch {
 		case l >= cut:
@@ -241,7 +248,13 @@ func genSpec(r *kit.Rng, maxN int) spec {
 	if sp.N <= 20000 && (r.Chance(0.08) || (sp.Dist == "zeromix" && r.Chance(0.6))) {
 		sp.CLI = true
 	}
-	if sp.Dist == "zeromix" && r.Chance(0.7) {
+	if sp.CLI && sp.N >= 4 && r.Chance(0.5) {
+		sp.BigBodies = true
+		if r.Chance(0.6) {
+			sp.Order = "sorted" // ascending latencies: a cut-short file shifts every percentile
+		}
+	}
+	if sp.Dist == "zeromix" && !sp.BigBodies && r.Chance(0.7) {
 		sp.Order = "random" // keep the zeros interleaved with / following the non-zero values
 	}
 	if r.Chance(0.3) {
@@ -742,14 +755,14 @@ func (k *checker) check(sp spec, tag string) {
 	{ // the JSON and text reporters show the same six values
 		var jb, tb bytes.Buffer
 		if p, _ := kit.Recover(func() { rerr = vegeta.NewJSONReporter(&m).Report(&jb) }); p || rerr != nil {
-			s.Violate(kit.Violation{Kind: "report_failed", What: "JSON reporter panicked or failed", Input: repl})
+			s.Count("oracle:skipped json (the reporter failed)") // the JSON reporter's own property
 		} else if ch, ok := parseJSONLatencies(jb.Bytes()); !ok {
 			s.Count("oracle:skipped json (latency fields not recognised)")
 		} else {
 			k.oracleChain(view{"json", ch, true}, sorted, repl, hasZero)
 		}
 		if p, _ := kit.Recover(func() { rerr = vegeta.NewTextReporter(&m).Report(&tb) }); p || rerr != nil {
-			s.Violate(kit.Violation{Kind: "report_failed", What: "text reporter panicked or failed", Input: repl})
+			s.Count("oracle:skipped text (the reporter failed)")
 		} else if ch, ok := parseTextLatencies(tb.Bytes()); !ok {
 			s.Count("oracle:skipped text (latency line not recognised)")
 		} else {
